@@ -1,7 +1,6 @@
 //! Abstract OpenAPI subset (mirror of coq/Model/OpenApi.v), its JSON rendering (fed to the real
 //! serde/openapiv3 front-end) and its S-expression rendering (fed to the extracted model).
 use crate::util::*;
-use serde_json::{json, Map, Value};
 
 #[derive(Clone, Debug, PartialEq)]
 pub enum SRef {
@@ -101,154 +100,191 @@ pub struct Spec {
     pub ext_docs: Option<String>,
 }
 
-// ------------------------------------------------------------------ JSON
-pub fn sref_json(r: &SRef) -> Value {
+// ------------------------------------------------------------------ JSON (document order preserved)
+/// ordered JSON value: object members keep the order of the abstract spec, whatever serde_json::Map does
+#[derive(Clone, Debug)]
+pub enum J {
+    Null,
+    Bool(bool),
+    Num(i64),
+    Str(String),
+    Arr(Vec<J>),
+    Obj(Vec<(String, J)>),
+}
+impl J {
+    pub fn to_text(&self) -> String {
+        match self {
+            J::Null => "null".into(),
+            J::Bool(b) => b.to_string(),
+            J::Num(n) => n.to_string(),
+            J::Str(s) => serde_json::to_string(s).unwrap(),
+            J::Arr(v) => format!("[{}]", v.iter().map(|x| x.to_text()).collect::<Vec<_>>().join(",")),
+            J::Obj(m) => format!(
+                "{{{}}}",
+                m.iter().map(|(k, v)| format!("{}:{}", serde_json::to_string(k).unwrap(), v.to_text())).collect::<Vec<_>>().join(",")
+            ),
+        }
+    }
+    /// YAML flow-style rendering of the same document (JSON is YAML, but quote style differs: single-quoted scalars)
+    pub fn to_yaml(&self, indent: usize) -> String {
+        let pad = "  ".repeat(indent);
+        match self {
+            J::Obj(m) if !m.is_empty() => m
+                .iter()
+                .map(|(k, v)| match v {
+                    J::Obj(x) if !x.is_empty() => format!("{}{}:\n{}", pad, serde_json::to_string(k).unwrap(), v.to_yaml(indent + 1)),
+                    J::Arr(x) if !x.is_empty() => format!("{}{}:\n{}", pad, serde_json::to_string(k).unwrap(), v.to_yaml(indent + 1)),
+                    _ => format!("{}{}: {}\n", pad, serde_json::to_string(k).unwrap(), v.to_text()),
+                })
+                .collect::<Vec<_>>()
+                .join(""),
+            J::Arr(v) if !v.is_empty() => v
+                .iter()
+                .map(|x| match x {
+                    J::Obj(m) if !m.is_empty() => {
+                        let inner = x.to_yaml(indent + 1);
+                        let trimmed = inner.trim_start();
+                        format!("{}- {}", pad, trimmed)
+                    }
+                    _ => format!("{}- {}\n", pad, x.to_text()),
+                })
+                .collect::<Vec<_>>()
+                .join(""),
+            _ => format!("{}{}\n", pad, self.to_text()),
+        }
+    }
+}
+fn js(s: &str) -> J {
+    J::Str(s.to_string())
+}
+fn obj(v: Vec<(&str, J)>) -> J {
+    J::Obj(v.into_iter().map(|(k, v)| (k.to_string(), v)).collect())
+}
+
+pub fn sref_json(r: &SRef) -> J {
     match r {
-        SRef::Ref(n) => json!({ "$ref": format!("#/components/schemas/{}", n) }),
+        SRef::Ref(n) => obj(vec![("$ref", J::Str(format!("#/components/schemas/{}", n)))]),
         SRef::Inl(s) => schema_json(s),
     }
 }
 
-pub fn schema_json(s: &Schema) -> Value {
-    let mut m = Map::new();
+pub fn schema_json(s: &Schema) -> J {
+    let mut m: Vec<(String, J)> = vec![];
+    let mut put = |k: &str, v: J| m.push((k.to_string(), v));
     match &s.kind {
         Kind::Str { format, enumeration } => {
-            m.insert("type".into(), json!("string"));
+            put("type", js("string"));
             if !format.is_empty() {
-                m.insert("format".into(), json!(format));
+                put("format", js(format));
             }
             if !enumeration.is_empty() {
-                m.insert("enum".into(), json!(enumeration));
+                put("enum", J::Arr(enumeration.iter().map(|e| js(e)).collect()));
             }
         }
-        Kind::Integer => {
-            m.insert("type".into(), json!("integer"));
-        }
-        Kind::Number => {
-            m.insert("type".into(), json!("number"));
-        }
-        Kind::Boolean => {
-            m.insert("type".into(), json!("boolean"));
-        }
+        Kind::Integer => put("type", js("integer")),
+        Kind::Number => put("type", js("number")),
+        Kind::Boolean => put("type", js("boolean")),
         Kind::Object { props, required, addl } => {
-            m.insert("type".into(), json!("object"));
+            put("type", js("object"));
             if !props.is_empty() {
-                let mut pm = Map::new();
-                for (k, v) in props {
-                    pm.insert(k.clone(), sref_json(v));
-                }
-                m.insert("properties".into(), Value::Object(pm));
+                put("properties", J::Obj(props.iter().map(|(k, v)| (k.clone(), sref_json(v))).collect()));
             }
             if !required.is_empty() {
-                m.insert("required".into(), json!(required));
+                put("required", J::Arr(required.iter().map(|e| js(e)).collect()));
             }
             match addl {
                 None => {}
-                Some(Addl::Any(b)) => {
-                    m.insert("additionalProperties".into(), json!(b));
-                }
-                Some(Addl::Schema(r)) => {
-                    m.insert("additionalProperties".into(), sref_json(r));
-                }
+                Some(Addl::Any(b)) => put("additionalProperties", J::Bool(*b)),
+                Some(Addl::Schema(r)) => put("additionalProperties", sref_json(r)),
             }
         }
         Kind::Array { items } => {
-            m.insert("type".into(), json!("array"));
+            put("type", js("array"));
             if let Some(i) = items {
-                m.insert("items".into(), sref_json(i));
+                put("items", sref_json(i));
             }
         }
-        Kind::AllOf(l) => {
-            m.insert("allOf".into(), Value::Array(l.iter().map(sref_json).collect()));
-        }
-        Kind::OneOf(l) => {
-            m.insert("oneOf".into(), Value::Array(l.iter().map(sref_json).collect()));
-        }
-        Kind::AnyOf(l) => {
-            m.insert("anyOf".into(), Value::Array(l.iter().map(sref_json).collect()));
-        }
-        Kind::Not => {
-            m.insert("not".into(), json!({"type": "string"}));
-        }
+        Kind::AllOf(l) => put("allOf", J::Arr(l.iter().map(sref_json).collect())),
+        Kind::OneOf(l) => put("oneOf", J::Arr(l.iter().map(sref_json).collect())),
+        Kind::AnyOf(l) => put("anyOf", J::Arr(l.iter().map(sref_json).collect())),
+        Kind::Not => put("not", obj(vec![("type", js("string"))])),
         Kind::Any => {}
     }
     if s.nullable {
-        m.insert("nullable".into(), json!(true));
+        put("nullable", J::Bool(true));
     }
     if let Some(d) = &s.descr {
-        m.insert("description".into(), json!(d));
+        put("description", js(d));
     }
     if s.null_as_zero {
-        m.insert("x-null-as-zero".into(), json!(true));
+        put("x-null-as-zero", J::Bool(true));
     }
     if s.xformat_date {
-        m.insert("x-format".into(), json!("date"));
+        put("x-format", js("date"));
     }
-    Value::Object(m)
+    J::Obj(m)
 }
 
-fn param_json(p: &Param) -> Value {
+fn param_json(p: &Param) -> J {
     let loc = match p.loc {
         Loc::Path => "path",
         Loc::Query => "query",
         Loc::Header => "header",
         Loc::Cookie => "cookie",
     };
-    json!({"name": p.name, "in": loc, "required": p.required, "schema": sref_json(&p.schema)})
+    obj(vec![("name", js(&p.name)), ("in", js(loc)), ("required", J::Bool(p.required)), ("schema", sref_json(&p.schema))])
 }
 
-fn op_json(o: &Op) -> Value {
-    let mut m = Map::new();
+fn op_json(o: &Op) -> J {
+    let mut m: Vec<(String, J)> = vec![];
+    let mut put = |k: &str, v: J| m.push((k.to_string(), v));
     if let Some(id) = &o.operation_id {
-        m.insert("operationId".into(), json!(id));
+        put("operationId", js(id));
     }
     if let Some(s) = &o.summary {
-        m.insert("summary".into(), json!(s));
+        put("summary", js(s));
     }
     if let Some(s) = &o.description {
-        m.insert("description".into(), json!(s));
+        put("description", js(s));
     }
     if let Some(u) = &o.ext_docs {
-        m.insert("externalDocs".into(), json!({ "url": u }));
+        put("externalDocs", obj(vec![("url", js(u))]));
     }
     if !o.params.is_empty() {
-        m.insert("parameters".into(), Value::Array(o.params.iter().map(param_json).collect()));
+        put("parameters", J::Arr(o.params.iter().map(param_json).collect()));
     }
     if let Some(b) = &o.body {
-        m.insert(
-            "requestBody".into(),
-            json!({"required": true, "content": {"application/json": {"schema": sref_json(b)}}}),
+        put(
+            "requestBody",
+            obj(vec![("required", J::Bool(true)), ("content", obj(vec![("application/json", obj(vec![("schema", sref_json(b))]))]))]),
         );
     }
-    let mut rm = Map::new();
+    let mut rm: Vec<(String, J)> = vec![];
     for (code, schema) in &o.responses {
         let v = match schema {
-            Some(s) => json!({"description": "r", "content": {"application/json": {"schema": sref_json(s)}}}),
-            None => json!({"description": "r"}),
+            Some(s) => obj(vec![("description", js("r")), ("content", obj(vec![("application/json", obj(vec![("schema", sref_json(s))]))]))]),
+            None => obj(vec![("description", js("r"))]),
         };
-        rm.insert(code.to_string(), v);
+        rm.push((code.to_string(), v));
     }
-    m.insert("responses".into(), Value::Object(rm));
-    Value::Object(m)
+    put("responses", J::Obj(rm));
+    J::Obj(m)
 }
 
-pub fn spec_json(s: &Spec) -> Value {
-    let mut paths = Map::new();
+pub fn spec_json(s: &Spec) -> J {
+    let mut paths: Vec<(String, J)> = vec![];
     for pi in &s.paths {
-        let mut m = Map::new();
+        let mut m: Vec<(String, J)> = vec![];
         if !pi.params.is_empty() {
-            m.insert("parameters".into(), Value::Array(pi.params.iter().map(param_json).collect()));
+            m.push(("parameters".into(), J::Arr(pi.params.iter().map(param_json).collect())));
         }
         for o in &pi.ops {
-            m.insert(o.method.clone(), op_json(o));
+            m.push((o.method.clone(), op_json(o)));
         }
-        paths.insert(pi.path.clone(), Value::Object(m));
+        paths.push((pi.path.clone(), J::Obj(m)));
     }
-    let mut schemas = Map::new();
-    for (n, sc) in &s.components {
-        schemas.insert(n.clone(), schema_json(sc));
-    }
-    let mut schemes = Map::new();
+    let schemas: Vec<(String, J)> = s.components.iter().map(|(n, sc)| (n.clone(), schema_json(sc))).collect();
+    let mut schemes: Vec<(String, J)> = vec![];
     for (n, sc) in &s.schemes {
         let v = match sc {
             Scheme::ApiKey { loc, name } => {
@@ -258,72 +294,55 @@ pub fn spec_json(s: &Spec) -> Value {
                     Loc::Cookie => "cookie",
                     Loc::Path => "header",
                 };
-                json!({"type": "apiKey", "in": l, "name": name})
+                obj(vec![("type", js("apiKey")), ("in", js(l)), ("name", js(name))])
             }
-            Scheme::HttpBearer => json!({"type": "http", "scheme": "bearer"}),
-            Scheme::HttpBasic => json!({"type": "http", "scheme": "basic"}),
+            Scheme::HttpBearer => obj(vec![("type", js("http")), ("scheme", js("bearer"))]),
+            Scheme::HttpBasic => obj(vec![("type", js("http")), ("scheme", js("basic"))]),
             Scheme::OAuth2 { auth_url, token_url, refresh_url, scopes } => {
-                let mut sm = Map::new();
-                for (k, v) in scopes {
-                    sm.insert(k.clone(), json!(v));
-                }
-                let mut flow = Map::new();
-                flow.insert("authorizationUrl".into(), json!(auth_url));
-                flow.insert("tokenUrl".into(), json!(token_url));
+                let mut flow: Vec<(String, J)> = vec![("authorizationUrl".into(), js(auth_url)), ("tokenUrl".into(), js(token_url))];
                 if let Some(r) = refresh_url {
-                    flow.insert("refreshUrl".into(), json!(r));
+                    flow.push(("refreshUrl".into(), js(r)));
                 }
-                flow.insert("scopes".into(), Value::Object(sm));
-                json!({"type": "oauth2", "flows": {"authorizationCode": Value::Object(flow)}})
+                flow.push(("scopes".into(), J::Obj(scopes.iter().map(|(k, v)| (k.clone(), js(v))).collect())));
+                obj(vec![("type", js("oauth2")), ("flows", obj(vec![("authorizationCode", J::Obj(flow))]))])
             }
         };
-        schemes.insert(n.clone(), v);
+        schemes.push((n.clone(), v));
     }
-    let mut root = Map::new();
-    root.insert("openapi".into(), json!("3.0.3"));
-    root.insert("info".into(), json!({"title": "t", "version": "1.0.0"}));
+    let mut root: Vec<(String, J)> = vec![
+        ("openapi".into(), js("3.0.3")),
+        ("info".into(), obj(vec![("title", js("t")), ("version", js("1.0.0"))])),
+    ];
     if !s.servers.is_empty() {
-        root.insert(
+        root.push((
             "servers".into(),
-            Value::Array(
+            J::Arr(
                 s.servers
                     .iter()
                     .map(|sv| match &sv.description {
-                        Some(d) => json!({"url": sv.url, "description": d}),
-                        None => json!({"url": sv.url}),
+                        Some(d) => obj(vec![("url", js(&sv.url)), ("description", js(d))]),
+                        None => obj(vec![("url", js(&sv.url))]),
                     })
                     .collect(),
             ),
-        );
+        ));
     }
-    root.insert("paths".into(), Value::Object(paths));
-    let mut comps = Map::new();
-    comps.insert("schemas".into(), Value::Object(schemas));
+    root.push(("paths".into(), J::Obj(paths)));
+    let mut comps: Vec<(String, J)> = vec![("schemas".into(), J::Obj(schemas))];
     if !schemes.is_empty() {
-        comps.insert("securitySchemes".into(), Value::Object(schemes));
+        comps.push(("securitySchemes".into(), J::Obj(schemes)));
     }
-    root.insert("components".into(), Value::Object(comps));
+    root.push(("components".into(), J::Obj(comps)));
     if !s.security.is_empty() {
-        root.insert(
+        root.push((
             "security".into(),
-            Value::Array(
-                s.security
-                    .iter()
-                    .map(|req| {
-                        let mut m = Map::new();
-                        for n in req {
-                            m.insert(n.clone(), json!([]));
-                        }
-                        Value::Object(m)
-                    })
-                    .collect(),
-            ),
-        );
+            J::Arr(s.security.iter().map(|req| J::Obj(req.iter().map(|n| (n.clone(), J::Arr(vec![]))).collect())).collect()),
+        ));
     }
     if let Some(u) = &s.ext_docs {
-        root.insert("externalDocs".into(), json!({ "url": u }));
+        root.push(("externalDocs".into(), obj(vec![("url", js(u))])));
     }
-    Value::Object(root)
+    J::Obj(root)
 }
 
 // ------------------------------------------------------------------ S-expressions (atoms are hex)
